@@ -17,7 +17,9 @@ import (
 //
 //	peers <nCons> <nCand> | height <h>                                                          -> ok
 //	reg <chain> <router name>          plant the side-chain record (with the ExtraInfo the router needs) -> ok
-//	install n=<nonce> s=<signers> chain=<c> g=<0|1|bad>   SyncGenesisHeader with genesis variant g of the chain's router
+//	install n=<nonce> s=<signers> chain=<c> g=<0..3|1x|bad|badx>   SyncGenesisHeader with genesis variant g of the chain's router:
+//	        0..3 complete records, 10+i = partial record i that the installer accepts, bad = garbage, bad<i> = partial record i
+//	        that the installer refuses (partial = one optional part of the format missing)
 //	                                                       -> ok|reject:<class> changed=<0|1>
 //	sync n=<nonce> s=<signers> chain=<c>                   SyncBlockHeader with a header that does not verify
 //	                                                       -> reject:<class> changed=0
@@ -133,9 +135,24 @@ func (f *genesisFam) Exec(r *hx.Run, op []string) string {
 		var args []byte
 		if op[0] == "install" {
 			var gb []byte
+			pi := -1
+			if strings.HasPrefix(g, "bad") && len(g) > 3 {
+				pi = int(u64(g[3:]))
+			} else if !strings.HasPrefix(g, "bad") && u64(g) >= 10 {
+				pi = int(u64(g)) - 10
+			}
 			switch {
 			case g == "bad" || ri == nil || ri.build == nil:
 				gb = badGenesis()
+			case pi >= 0:
+				ps := partialsOf(ri.name)
+				if pi >= len(ps) {
+					return "bad-op:no-such-partial"
+				}
+				var err error
+				if gb, err = ps[pi](); err != nil {
+					return "bad-op:partial-builder:" + err.Error()
+				}
 			default:
 				var err error
 				gb, err = ri.build(int(u64(g)))
@@ -152,7 +169,17 @@ func (f *genesisFam) Exec(r *hx.Run, op []string) string {
 		}
 		tx := mkTx(nonce, utils.HeaderSyncContractAddress, method, args)
 		before := w.writeSet()
-		_, _, err := w.exec(tx, w.signerAddrs(signers))
+		var err error
+		func() {
+			// an installation ends in success or in an error; a panic inside block execution is recovered nowhere in the node
+			defer func() {
+				if e := recover(); e != nil {
+					r.Viol("C19:install-panicked:router="+name, fmt.Sprintf("%s for chain %d (router %s, genesis %s) panicked: %v", method, chain, name, g, e))
+					panic(e)
+				}
+			}()
+			_, _, err = w.exec(tx, w.signerAddrs(signers))
+		}()
 		after := w.writeSet()
 		changedKeys := diffKeys(before, after)
 		logKeys(changedKeys)
@@ -183,6 +210,11 @@ func (f *genesisFam) Exec(r *hx.Run, op []string) string {
 		if op[0] == "sync" && err != nil {
 			out = "reject" // the routers reject an undecodable header each in its own words
 		}
+		if op[0] == "install" && strings.HasPrefix(g, "bad") && len(g) > 3 && (out == "reject:genesis" || out == "reject:installed") {
+			// a partial record decodes but is refused by a later check: whether that check or the existence test speaks
+			// first differs between routers
+			out = "reject:refused"
+		}
 		if os := os_debug(); os && err != nil {
 			fmt.Printf("DEBUG %s %s: %v\n", name, strings.Join(op, " "), err)
 		}
@@ -200,6 +232,10 @@ func (f *genesisFam) probe(ri *routerInfo, v int) bool {
 	if err != nil {
 		return false
 	}
+	return f.probeBytes(ri, gb)
+}
+
+func (f *genesisFam) probeBytes(ri *routerInfo, gb []byte) bool {
 	saved, savedRt := f.w, f.chainRt
 	defer func() { f.w.close(); f.w, f.chainRt = saved, savedRt }()
 	f.w = newWorld()
@@ -246,6 +282,21 @@ func (f *genesisFam) Gen(r *hx.Run) {
 		if len(variants) == 0 {
 			variants = []int{0, 1}
 		}
+		// partial records: accepted ones become further variants (10+i), refused ones are submitted as bad<i>
+		var refused []string
+		for i, pb := range partialsOf(ri.name) {
+			gb, err := pb()
+			if err != nil {
+				continue
+			}
+			if f.probeBytes(ri, gb) {
+				variants = append(variants, 10+i)
+				r.Hist(fmt.Sprintf("partial-accepted.%s.%d", ri.name, i))
+			} else {
+				refused = append(refused, fmt.Sprintf("bad%d", i))
+				r.Hist(fmt.Sprintf("partial-refused.%s.%d", ri.name, i))
+			}
+		}
 		for k := 0; k < nPer; k++ {
 			id++
 			r.Case(fmt.Sprintf("%s-%d", ri.name, id))
@@ -282,6 +333,8 @@ func (f *genesisFam) Gen(r *hx.Run) {
 					}
 					if rng.Chance(1, 8) {
 						g = "bad"
+					} else if len(refused) > 0 && rng.Chance(1, 5) {
+						g = refused[rng.Intn(len(refused))]
 					}
 					signer := "op"
 					if rng.Chance(1, 6) {
